@@ -122,6 +122,8 @@ class Str:
             return "esc(%r)" % (self.parts[0],)
         if self.kind == "num":
             return "num(%r)" % (self.parts[0],)
+        if self.kind == "trunc":
+            return "int(%r)" % (self.parts[0],)
         if self.kind == "cat":
             return "".join(p if isinstance(p, str) else repr(p) for p in self.parts)
         if self.kind == "join":
@@ -172,6 +174,23 @@ class DictVal:
 
     def __repr__(self):
         return "{%s}" % ", ".join("%r: %r" % kv for kv in self.d.items())
+
+
+class IterVal:
+    """A one-shot iterator (iter(x), a generator expression, zip(...)): items are produced on demand and consumed."""
+
+    def __init__(self, source):
+        self.it = iter(source)
+
+    def pull(self):
+        """next item or raise StopIteration"""
+        return next(self.it)
+
+    def rest(self):
+        return list(self.it)
+
+    def __repr__(self):
+        return "<iterator>"
 
 
 class SetVal:
@@ -713,7 +732,7 @@ class Interp:
             if v.kind == "var":
                 return True
             raise Undecided("truth value of a symbolic string")
-        if isinstance(v, (ObjVal, FuncVal, ClassVal, ModuleVal, Builtin, PyFunc, MockObj)):
+        if isinstance(v, (ObjVal, FuncVal, ClassVal, ModuleVal, Builtin, PyFunc, MockObj, IterVal)):
             return True
         raise Undecided("truth value of %r" % (v,))
 
@@ -878,12 +897,23 @@ class Interp:
                 self.exec_block(s.orelse, env)
             return
         if isinstance(s, ast.For):
-            items = self.iterate(self.eval(s.iter, env), live=True)
+            itv = self.eval(s.iter, env)
+            one_shot = itv if isinstance(itv, IterVal) else None
+            items = [] if one_shot else self.iterate(itv, live=True)
             broke = False
             i = 0
-            while i < len(items):
+            while True:
+                if one_shot is not None:
+                    try:
+                        cur = one_shot.pull()
+                    except StopIteration:
+                        break
+                else:
+                    if i >= len(items):
+                        break
+                    cur = items[i]
                 self.tick()
-                self.assign(s.target, items[i], env)
+                self.assign(s.target, cur, env)
                 i += 1
                 try:
                     self.exec_block(s.body, env)
@@ -1081,6 +1111,8 @@ class Interp:
             return v.items if live else list(v.items)
         if isinstance(v, (Tup, SetVal)):
             return list(v.items)
+        if isinstance(v, IterVal):
+            return v.rest()
         if isinstance(v, DictVal):
             return list(v.d.keys())
         if isinstance(v, str):
@@ -1280,29 +1312,41 @@ class Interp:
             d.d[self.eval(k, env)] = self.eval(v, env)
         return d
 
-    def _comp(self, e, env, make):
-        out = []
+    def _comp_iter(self, e, env, make):
         cenv = dict(env)
 
         def rec(gi):
             if gi == len(e.generators):
-                out.append(make(cenv))
+                yield make(cenv)
                 return
             g = e.generators[gi]
-            for item in self.iterate(self.eval(g.iter, cenv)):
+            src = self.eval(g.iter, cenv)
+            if isinstance(src, IterVal):
+                def pulls():
+                    while True:
+                        try:
+                            yield src.pull()
+                        except StopIteration:
+                            return
+                seq = pulls()
+            else:
+                seq = self.iterate(src)
+            for item in seq:
                 self.tick()
                 self.assign(g.target, item, cenv)
                 if all(self.truth(self.eval(c, cenv), c) for c in g.ifs):
-                    rec(gi + 1)
+                    yield from rec(gi + 1)
 
-        rec(0)
-        return out
+        return rec(0)
+
+    def _comp(self, e, env, make):
+        return list(self._comp_iter(e, env, make))
 
     def e_ListComp(self, e, env):
         return Lst(self._comp(e, env, lambda ce: self.eval(e.elt, ce)))
 
     def e_GeneratorExp(self, e, env):
-        return Lst(self._comp(e, env, lambda ce: self.eval(e.elt, ce)))
+        return IterVal(self._comp_iter(e, env, lambda ce: self.eval(e.elt, ce)))
 
     def e_SetComp(self, e, env):
         return self._mkset(self._comp(e, env, lambda ce: self.eval(e.elt, ce)))
@@ -1329,6 +1373,8 @@ class Interp:
                 x = self.eval(v.value, env)
                 if isinstance(x, Lin) and x.is_const() and x.const.denominator == 1 and v.format_spec is None:
                     x = str(int(x.const))
+                if isinstance(x, Lin) and v.format_spec is None and v.conversion in (-1, 114, 115):
+                    x = Str("num", (x,))
                 parts.append(x if isinstance(x, (str, Str)) else _StrOf(x))
         return mkcat(parts)
 
@@ -1464,6 +1510,10 @@ class Interp:
                     out.append(str(int(v.const)))
                 elif isinstance(v, bool) or v is None:
                     out.append(str(v))
+                elif isinstance(v, Lin) and p == "%s":
+                    out.append(Str("num", (v,)))
+                elif isinstance(v, Lin):
+                    out.append(Str("trunc", (v,)))  # '%d' of a number that need not be whole
                 else:
                     return None
             else:
@@ -1564,8 +1614,20 @@ class Interp:
         if n == "isinstance":
             return self._isinstance(args[0], args[1])
         if n in ("list", "tuple", "sorted", "reversed", "set", "frozenset", "iter"):
+            if n == "iter":
+                if isinstance(args[0], IterVal):
+                    return args[0]
+                src = args[0]
+                if isinstance(src, Lst):  # a list iterator is live: it sees appends made while iterating
+                    def live_list(l=src):
+                        k = 0
+                        while k < len(l.items):
+                            yield l.items[k]
+                            k += 1
+                    return IterVal(live_list())
+                return IterVal(self.iterate(src))
             items = self.iterate(args[0]) if args else []
-            if n == "list" or n == "iter":
+            if n == "list":
                 return Lst(items)
             if n == "tuple":
                 return Tup(items)
@@ -1578,7 +1640,20 @@ class Interp:
             start = self.index(args[1]) if len(args) > 1 else (self.index(kwargs["start"]) if "start" in kwargs else 0)
             return Lst([Tup([Lin.num(i), x]) for i, x in enumerate(self.iterate(args[0]), start)])
         if n == "zip":
-            return Lst([Tup(list(t)) for t in zip(*[self.iterate(a) for a in args])])
+            handles = [a if isinstance(a, IterVal) else IterVal(self.iterate(a)) for a in args]
+
+            def zipped():
+                if not handles:
+                    return
+                while True:
+                    row = []
+                    for h in handles:
+                        try:
+                            row.append(h.pull())
+                        except StopIteration:
+                            return
+                    yield Tup(row)
+            return IterVal(zipped())
         if n == "range":
             vals = [self.index(a) for a in args]
             return Lst([Lin.num(i) for i in range(*vals)])
@@ -1588,12 +1663,14 @@ class Interp:
         if n == "bool":
             return self.truth(args[0]) if args else False
         if n == "next":
-            items = self.iterate(args[0])
-            if items:
-                return items[0]
-            if len(args) > 1:
-                return args[1]
-            raise PyRaise("StopIteration", node)
+            if not isinstance(args[0], IterVal):
+                raise PyRaise("TypeError", node)
+            try:
+                return args[0].pull()
+            except StopIteration:
+                if len(args) > 1:
+                    return args[1]
+                raise PyRaise("StopIteration", node)
         if n == "sum":
             items = self.iterate(args[0])
             tot = self.num(args[1]) if len(args) > 1 else Lin.num(0)
@@ -1609,6 +1686,8 @@ class Interp:
                 return str(int(v.const)) if v.const.denominator == 1 and not getattr(v, "is_float", False) else repr(float(v.const))
             if isinstance(v, str) and n == "repr":
                 return repr(v)
+            if isinstance(v, Lin):
+                return Str("num", (v,))  # repr/str of a float is a numeral denoting exactly that float (CPython guarantee)
             return v if isinstance(v, (str, Str)) else _StrOf(v)
         if n == "type":
             v = args[0]
